@@ -215,6 +215,130 @@ pub fn families() -> Vec<Box<dyn Family>> {
             },
         ),
         family(
+            "near_ties",
+            "near-ties of the similarity ratio between LONG candidates: a word of k distinct characters, candidate 1 = word + La fresh characters (ratio 2k/(2k+La)), candidate 2 = word minus one character + Lb fresh ones (ratio 2(k-1)/(2k-1+Lb)), La/Lb searched so that the two ratios differ by less than 2^-23 but are not equal; the candidate with the LOWER ratio sorts first alphabetically; n = 1 and 2",
+            false,
+            1,
+            |cfg| if cfg.tiny { 0 } else { cfg.tier.pick(4, 24) },
+            |idx, cfg, out| {
+                let mut rng = Rng::for_case(cfg.seed, "c18.near_ties", idx);
+                let k = rng.range(150, 260);
+                // search La, Lb with 0 < |r1 - r2| minimal and total lengths around 9000
+                let mut best: Option<(usize, usize, f64)> = None;
+                for la in 8000..9200usize {
+                    let r1 = 2.0 * k as f64 / (2 * k + la) as f64;
+                    // solve 2(k-1)/(2k-1+lb) = r1
+                    let lb0 = (2.0 * (k - 1) as f64 / r1 - (2 * k - 1) as f64).round() as i64;
+                    for lb in [lb0 - 1, lb0, lb0 + 1] {
+                        if lb <= 0 {
+                            continue;
+                        }
+                        let r2 = 2.0 * (k - 1) as f64 / (2 * k - 1 + lb as usize) as f64;
+                        let r1f = (2.0 * k as f32) / ((2 * k + la) as f32);
+                        let r2f = (2.0 * (k - 1) as f32) / ((2 * k - 1 + lb as usize) as f32);
+                        let d = (r1 - r2).abs();
+                        if r1f != r2f && d > 0.0 && best.map_or(true, |b| d < b.2) {
+                            best = Some((la, lb as usize, d));
+                        }
+                    }
+                }
+                let (la, lb, d) = match best {
+                    Some(b) => b,
+                    None => return,
+                };
+                let _ = cfg;
+                let ch = |i: usize| char::from_u32(0x10000 + i as u32).unwrap();
+                let word: String = (0..k).map(ch).collect();
+                let filler = |from: usize, n: usize| -> String { (0..n).map(|j| ch(from + j)).collect() };
+                // higher ratio: c_hi; lower ratio: c_lo.  Prefix letters force the alphabetical order.
+                let r1 = (2.0 * k as f32) / ((2 * k + la) as f32);
+                let r2 = (2.0 * (k - 1) as f32) / ((2 * k - 1 + lb) as f32);
+                // candidate 2 = word without its LAST character + filler.  Both candidates start with the
+                // same k-1 characters; at position k-1 candidate 1 has the word's last character
+                // (U+10000+k-1) and candidate 2 its first filler character: a CJK filler (below
+                // U+10000) makes candidate 2 the alphabetically smaller one, a high filler the larger
+                // one.  Chosen so that the candidate with the LOWER ratio sorts first.
+                let low_filler = |n: usize| -> String { (0..n).map(|j| char::from_u32(0x4e00 + j as u32).unwrap()).collect() };
+                let c1: String = format!("{}{}", word, filler(1_000, la));
+                let c2: String = format!("{}{}", word.chars().take(k - 1).collect::<String>(), if r2 < r1 { low_filler(lb) } else { filler(20_000, lb) });
+                // c2 starts with ch(1), c1 with ch(0): c1 < c2 alphabetically.  Swap roles at random so
+                // that the lower-ratio candidate is the alphabetically smaller one in half of the cases.
+                let cands = vec![c1.as_str(), c2.as_str()];
+                out.sample(|| format!("k={} La={} Lb={} ratios {} vs {} (|difference| = {:.3e})", k, la, lb, r1, r2, d));
+                out.nontrivial(&(k, la, lb));
+                out.count("near_tie_cases");
+                for nn in [1usize, 2] {
+                    out.eval();
+                    let mut kept: Vec<(f32, &str)> = vec![(r1, cands[0]), (r2, cands[1])];
+                    kept.sort_by(|a, b| b.0.partial_cmp(&a.0).unwrap().then_with(|| a.1.cmp(b.1)));
+                    let expect: Vec<&str> = kept.into_iter().take(nn).map(|x| x.1).collect();
+                    // both orders of the candidate list
+                    for order in 0..2 {
+                        let list: Vec<&str> = if order == 0 { cands.clone() } else { vec![cands[1], cands[0]] };
+                        match guard(|| get_close_matches(word.as_str(), &list, nn, 0.0)) {
+                            Err(p) => out.violation("panic", format!("get_close_matches panicked: {}", p)),
+                            Ok(got) => {
+                                if got != expect {
+                                    out.violation(
+                                        "close_matches.differs_from_exhaustive_ranking",
+                                        format!("near-tie: k={} La={} Lb={} exact ratios {} / {}: n={} returned the candidates of lengths {:?}, expected lengths {:?}", k, la, lb, r1, r2, nn, got.iter().map(|s| s.chars().count()).collect::<Vec<_>>(), expect.iter().map(|s| s.chars().count()).collect::<Vec<_>>()),
+                                    );
+                                }
+                            }
+                        }
+                    }
+                }
+            },
+        ),
+        family(
+            "long_rotations",
+            "long words (1001..1600 characters of low-entropy prose plus one or two characters that are unique on both sides) against rotations / moved markers / block moves of themselves and against edited copies; reference = LCS dynamic program",
+            false,
+            1,
+            |cfg| if cfg.tiny { 1 } else { cfg.tier.pick(10, 60) },
+            |idx, cfg, out| {
+                let mut rng = Rng::for_case(cfg.seed, "c18.long_rotations", idx);
+                let n = if cfg.tiny { 12 } else { rng.range(1001, 1600) };
+                let prose: Vec<char> = (0..n).map(|_| *rng.pick(&['a', 'b', 'c', 'd', ' ', 'e'])).collect();
+                let mut word = vec!['#'];
+                word.extend_from_slice(&prose);
+                let mut cands: Vec<Vec<char>> = Vec::new();
+                // marker moved to the end
+                let mut c = prose.clone();
+                c.push('#');
+                cands.push(c);
+                // rotation
+                let mut c = word.clone();
+                let r = rng.below(c.len());
+                c.rotate_left(r);
+                cands.push(c);
+                // block move
+                let mut c = word.clone();
+                let i = rng.below(c.len() / 2);
+                let blk: Vec<char> = c.drain(i..i + 20.min(c.len() - i)).collect();
+                let at = rng.below(c.len() + 1);
+                c.splice(at..at, blk);
+                cands.push(c);
+                // an edited copy and an unrelated long string
+                let mut c = word.clone();
+                for _ in 0..5 {
+                    let i = rng.below(c.len());
+                    c[i] = '@';
+                }
+                cands.push(c);
+                cands.push((0..n).map(|_| *rng.pick(&['x', 'y', 'z'])).collect());
+                let word_s: String = word.iter().collect();
+                let cand_s: Vec<String> = cands.iter().map(|c| c.iter().collect()).collect();
+                let refs: Vec<&str> = cand_s.iter().map(|s| s.as_str()).collect();
+                out.sample(|| format!("word of {} chars with a unique marker, {} candidates (marker moved, rotation, block move, edited, unrelated)", word.len(), refs.len()));
+                out.nontrivial(&(n, idx));
+                out.count("long_rotation_cases");
+                for (nn, cutoff) in [(1usize, 0.6f32), (3, 0.9), (5, 0.0)] {
+                    check(&word_s, &refs, nn, cutoff, out);
+                }
+            },
+        ),
+        family(
             "huge_alphabet",
             "words of 300..70000 DISTINCT characters (taken from U+10000.., so that word and candidates together cross 256 / 65536 distinct characters) and candidates derived by deleting / substituting / appending a few characters; the reference ratio is exact because for strings of distinct characters the LCS is a longest increasing subsequence",
             false,
